@@ -117,6 +117,16 @@ pub fn corpus(thorough: bool) -> Vec<Program> {
             ],
         });
     }
+    // several implicit components that only an explicit component refers to (they are found
+    // in a later round of whatever collects the components that are in use)
+    {
+        let r = |b: &str, p: &str| E::Rec(b.into(), Box::new(obj(vec![prop(p, arr(var(b)))])));
+        out.push(single(vec![
+            let_("@hub", obj(vec![prop("a", r("x", "pa")), prop("b", r("y", "pb")), prop("c", r("z", "pc")), prop("d", r("w", "pd")), prop("e", r("v", "pe"))])),
+            let_("@outer", obj(vec![prop("hub", var("@hub")), prop("f", r("u", "pf")), prop("g", r("t", "pg"))])),
+            Stmt::Res(rel(uri_lit(&["hub"]), vec![xfer(Method::Get, content(var("@outer")))])),
+        ]));
+    }
     out.push(large_program(if thorough { 1500 } else { 900 }));
     out
 }
@@ -270,7 +280,7 @@ fn hist_source(which: usize, variant: bool) -> (&'static str, String) {
         )),
         1 => ("defs.oal", format!("let item = {{ '{} str, 'id int }};\n", if variant { "title" } else { "name" })),
         _ => ("base.yaml", format!(
-            "openapi: 3.0.3\ninfo:\n  title: {}\n  version: '1'\npaths: {{}}\n",
+            "openapi: 3.0.3\ninfo:\n  title: {}\n  version: '1'\nx-one: 1\nx-two:\n  k: v\nx-three: [a, b]\nx-four: true\npaths: {{}}\ntags:\n- name: t1\n- name: t2\n",
             if variant { "Second" } else { "First" }
         )),
     }
@@ -535,7 +545,7 @@ impl Engine for C06 {
                 let step = if thorough { 4 } else { 8 };
                 let n = texts.len();
                 // every step-th program and always the two programs built for this property
-                for (i, t) in texts.iter().enumerate().filter(|(i, _)| i % step == 0 || *i + 2 + LARGE >= n) {
+                for (i, t) in texts.iter().enumerate().filter(|(i, _)| i % step == 0 || *i + 3 + LARGE >= n) {
                     if sink.expired() {
                         return;
                     }
